@@ -306,6 +306,10 @@ class SimThreading(object):
                 if self._task is s.current:
                     raise RuntimeError("cannot join current thread")
                 task = self._task
+                if task.state != "done":
+                    s.probe("join_on_running_thread")
+                    if getattr(s.current, "name", None) != "M":
+                        s.probe("loader_joins_loader")
                 s.block("join(%s)" % task.name, lambda: task.state == "done")
 
             def is_alive(self):
@@ -328,6 +332,8 @@ class SimThreading(object):
                     return True
                 if self._owner is not None and not blocking:
                     return False
+                if self._owner is not None:
+                    s.probe("lock_contended")
                 s.block("lock", lambda: self._owner is None)
                 self._owner = me
                 self._count = 1
